@@ -328,6 +328,11 @@ class Check(PropertyCheck):
                 [("send", "unicast", 0x1000, False, False), ("reply", 0), ("confirm", 0, 1, 3), ("confirm", 0, 0, 0)],
                 # a confirmation carrying the (destination, tag) of a request that is still waiting for the lock
                 [("send", "ieee", 0x1002, True, False), ("send", "ieee", 0x1003, True, False), ("reply", 0, 1), ("confirm", 1, 1, 2)],
+                # a request with set-up commands meets a busy NCP while a second request waits: the retry repeats the set-up
+                [("send", "unicast", 0x1001, True, True), ("send", "unicast", 0x1002, False, False), ("reply", 0), ("reply", 0),
+                 ("reply", 1, 0), ("reply", 0), ("timer",), ("reply", 0), ("reply", 0), ("reply", 0), ("confirm", 0, 1, 0), ("confirm", 1, 1, 0)],
+                [("send", "unicast", 0x1001, True, False), ("send", "unicast", 0x1002, True, False), ("reply", 0), ("reply", 1, 1),
+                 ("reply", 0), ("reply", 0), ("timer",), ("reply", 0), ("reply", 0), ("confirm", 0, 1, 0), ("confirm", 1, 1, 0)],
                 # response and confirmation back to back in one read (success / failure), also behind a busy retry
                 [("send", "unicast", 0x1000, False, False), ("burst", 0, 1)],
                 [("send", "unicast", 0x1000, False, False), ("burst", 0, 0)],
@@ -416,9 +421,12 @@ class Check(PropertyCheck):
         created = {}          # rid -> index of its send_packet call
         in_lock = None        # request currently between its first set-up/send command and the send reply
         last_cmd = {}         # rid -> 'setup' | 'send' : the command that request is waiting on
+        cmd_order = []        # ('setup' | 'send', rid) in the order the commands reached the NCP
+        nsetup = {}           # rid -> set-up commands per attempt
         for idx, (ev, st) in enumerate(zip(case["_events"], obs["steps"])):
             if ev[0] == "send":
                 created[ev[1]] = idx
+                nsetup[ev[1]] = ev[4] if ev[2] == 0 else 0
             if ev[0] == "reply":
                 rid, enq = ev[1], ev[2]
                 if last_cmd.get(rid) == "send":
@@ -440,6 +448,14 @@ class Check(PropertyCheck):
                 all_confirms.append((idx, ev[1], ev[2], ev[3]))
             for e in st:
                 if e[0] in ("setup", "send"):
+                    cmd_order.append((e[0], e[1]))
+                    if e[0] == "send" and nsetup.get(e[1], 0) > 0:
+                        # every attempt of a request that needs set-up issues its set-up commands immediately before its
+                        # send command, with no other request's command in between (a retry after a busy status included)
+                        prev = cmd_order[-1 - nsetup[e[1]]:-1]
+                        if len(prev) != nsetup[e[1]] or any(p != ("setup", e[1]) for p in prev):
+                            return (f"request {e[1]} put its send command on the wire without its {nsetup[e[1]]} set-up command(s) "
+                                    f"directly in front of it (commands before it: {cmd_order[-4:-1]})")
                     if in_lock is not None and in_lock != e[1]:
                         return f"request {e[1]} issued a command while request {in_lock} was between its set-up and its send"
                     in_lock = e[1]
